@@ -484,7 +484,7 @@ pub fn check_expr(run: &mut Run, env: &[(String, Value)], e: &ExpressionTree, ex
     let ev = |x: &ExpressionTree| eval_real(env, x);
     let (expect, law) = spec_root(e, &ev);
     match expect {
-        Expect::Unspecified => {}
+        Expect::Unspecified => { run.count(&format!("oracle-abstains:{}", root)); }
         Expect::Value(want) => match &got {
             Ev::Ok(v) if bits_equal(v, &want) => {}
             other => {
